@@ -151,6 +151,32 @@ fn fee_run(a: &[&str]) -> String {
                 out.push(format!("{}", r.fee_balance().attos()));
                 i += 1;
             }
+            "DEFER_EXEC" => {
+                out.push(match r.consume_deferred_execution(a[i + 1].parse().unwrap()) {
+                    Ok(()) => "ok".into(),
+                    Err(_) => "err".into(),
+                });
+                i += 2;
+            }
+            "DEFER_FIN" => {
+                out.push(match r.consume_deferred_finalization(a[i + 1].parse().unwrap()) {
+                    Ok(()) => "ok".into(),
+                    Err(_) => "err".into(),
+                });
+                i += 2;
+            }
+            "REPAY" => {
+                out.push(match r.repay_all() {
+                    Ok(()) => "ok".into(),
+                    Err(_) => "err".into(),
+                });
+                i += 1;
+            }
+            "UNITS" => {
+                let (s, _, _) = r.clone().finalize();
+                out.push(format!("{} {}", s.total_execution_cost_units_consumed, s.total_finalization_cost_units_consumed));
+                i += 1;
+            }
             "FINALIZE" => {
                 let (s, _, _) = r.finalize();
                 out.push(format!(
@@ -1048,6 +1074,66 @@ fn worktop_run(a: &[&str]) -> String {
     )
 }
 
+/// pool1_contribute <bucket resource matches 0|1> <contribution attos> <reserves attos> <pool unit supply attos>
+/// REAL OneResourcePoolBlueprint::contribute over the MockApi (state field, vault / bucket / resource-manager answers).
+/// Prints `ok <minted attos> <vault put 0|1>` or `err`.
+fn pool1_contribute(a: &[&str]) -> String {
+    use radix_common::prelude::*;
+    use radix_engine::blueprints::pool::v1::substates::one_resource_pool::*;
+    use radix_engine_interface::blueprints::resource::*;
+    use radix_native_sdk::resource::ResourceManager;
+    let mk = |b: u8| {
+        let mut x = [b; NodeId::LENGTH];
+        x[0] = EntityType::InternalGenericComponent as u8;
+        NodeId(x)
+    };
+    let other_fungible = {
+        let mut b = [3u8; NodeId::LENGTH];
+        b[0] = EntityType::GlobalFungibleResourceManager as u8;
+        ResourceAddress::new_or_panic(b)
+    };
+    let pool_unit = {
+        let mut b = [4u8; NodeId::LENGTH];
+        b[0] = EntityType::GlobalFungibleResourceManager as u8;
+        ResourceAddress::new_or_panic(b)
+    };
+    let (matches, c, r, supply) = (a[0] == "1", dec(a[1]), dec(a[2]), dec(a[3]));
+    let mut api = mock_api::MockApi::default();
+    let (vault, bucket, minted) = (mk(20), mk(21), mk(22));
+    let state = VersionedOneResourcePoolState::from(OneResourcePoolStateVersions::V1(Substate {
+        vault: Vault(Own(vault)),
+        pool_unit_resource_manager: ResourceManager(pool_unit),
+    }));
+    api.fields.insert(0u8, scrypto_encode(&state).unwrap());
+    api.outer_objects.insert(vault, XRD.into());
+    api.outer_objects.insert(bucket, if matches { XRD.into() } else { other_fungible.into() });
+    api.per_node.insert((vault, VAULT_GET_AMOUNT_IDENT.to_string()), scrypto_encode(&r).unwrap());
+    api.per_node.insert((bucket, BUCKET_GET_AMOUNT_IDENT.to_string()), scrypto_encode(&c).unwrap());
+    api.defaults.insert(RESOURCE_MANAGER_GET_TOTAL_SUPPLY_IDENT.to_string(), scrypto_encode(&Some(supply)).unwrap());
+    api.defaults.insert(VAULT_PUT_IDENT.to_string(), scrypto_encode(&()).unwrap());
+    api.defaults.insert(FUNGIBLE_RESOURCE_MANAGER_MINT_IDENT.to_string(), scrypto_encode(&Bucket(Own(minted))).unwrap());
+    match OneResourcePoolBlueprint::contribute(Bucket(Own(bucket)), &mut api) {
+        Ok(_) => {
+            let mut m = "none".to_string();
+            let mut put = 0;
+            for (recv, method, args) in api.calls.iter() {
+                if method == FUNGIBLE_RESOURCE_MANAGER_MINT_IDENT {
+                    let i: FungibleResourceManagerMintInput = scrypto_decode(args).unwrap();
+                    m = format!("{}", i.amount.attos());
+                }
+                if method == VAULT_PUT_IDENT && *recv == vault {
+                    let i: VaultPutInput = scrypto_decode(args).unwrap();
+                    if i.bucket.0 .0 == bucket {
+                        put = 1;
+                    }
+                }
+            }
+            format!("ok {} {}", m, put)
+        }
+        Err(_) => "err".to_string(),
+    }
+}
+
 /// authzone_run <kind rule|amount> <rk 0 NF|1 Resource> <rr> <ri> <amount attos> <dcp_some> <dcp> <gck> <gca> <g zone|-1>
 ///              <n zones> { <parent zone|-1> <sim res> <impl res> <impl id> <n proofs> {<res> <amount> <id>}* }*
 /// Zone 0 is the actor's own auth zone. Resources: 0 XRD, 1 ACCOUNT_OWNER_BADGE, 5 PACKAGE_OF_DIRECT_CALLER, 6 GLOBAL_CALLER,
@@ -1269,6 +1355,7 @@ fn auth_run(a: &[&str]) -> String {
 fn run(a: &[&str]) -> String {
     match a[0] {
         "auth_run" => auth_run(&a[1..]),
+        "pool1_contribute" => pool1_contribute(&a[1..]),
         "worktop_run" => worktop_run(&a[1..]),
         "account_batch" => account_batch(&a[1..]),
         "account_run" => account_run(&a[1..]),
